@@ -128,6 +128,69 @@ pub fn check_decode_bin(kind: Kind, payload: i128) -> Result<bool, String> {
     }
 }
 
+pub const INT_WIDTHS: [&str; 10] = ["i8", "i16", "i32", "i64", "i128", "u8", "u16", "u32", "u64", "u128"];
+
+/// An integer handed to the type's `Deserialize` by a deserializer that reports it in the given
+/// width (serde's own `de::value` deserializers, as self-describing formats do): an error, or the
+/// value whose raw count IS that integer - never a wrapped / truncated image of it.
+pub fn check_decode_int(kind: Kind, payload: i128, width: usize) -> Result<bool, String> {
+    use serde::de::value::*;
+    use serde::de::IntoDeserializer;
+    use serde::Deserialize;
+    type E = serde::de::value::Error;
+    macro_rules! via {
+        ($d:expr) => {
+            match kind {
+                Kind::Date => Date::deserialize($d).map(|x| LibVal::Date(x).to_val()),
+                Kind::Time => Time::deserialize($d).map(|x| LibVal::Time(x).to_val()),
+                Kind::Ts => Timestamp::deserialize($d).map(|x| LibVal::Ts(x).to_val()),
+                Kind::Ora => OracleDate::deserialize($d).map(|x| LibVal::Ora(x).to_val()),
+                Kind::YM => IntervalYM::deserialize($d).map(|x| LibVal::YM(x).to_val()),
+                Kind::DT => IntervalDT::deserialize($d).map(|x| LibVal::DT(x).to_val()),
+            }
+        };
+    }
+    let w = width % INT_WIDTHS.len();
+    // the integer actually denoted: the payload narrowed to the width
+    let denoted: i128 = match w {
+        0 => payload as i8 as i128,
+        1 => payload as i16 as i128,
+        2 => payload as i32 as i128,
+        3 => payload as i64 as i128,
+        4 => payload,
+        5 => payload as u8 as i128,
+        6 => payload as u16 as i128,
+        7 => payload as u32 as i128,
+        8 => payload as u64 as i128,
+        _ => payload & i128::MAX, // u128 below 2^127
+    };
+    let r: Result<Result<Val, E>, String> = guarded(|| match w {
+        0 => via!(IntoDeserializer::<E>::into_deserializer(denoted as i8)),
+        1 => via!(IntoDeserializer::<E>::into_deserializer(denoted as i16)),
+        2 => via!(IntoDeserializer::<E>::into_deserializer(denoted as i32)),
+        3 => via!(IntoDeserializer::<E>::into_deserializer(denoted as i64)),
+        4 => via!(IntoDeserializer::<E>::into_deserializer(denoted)),
+        5 => via!(IntoDeserializer::<E>::into_deserializer(denoted as u8)),
+        6 => via!(IntoDeserializer::<E>::into_deserializer(denoted as u16)),
+        7 => via!(IntoDeserializer::<E>::into_deserializer(denoted as u32)),
+        8 => via!(IntoDeserializer::<E>::into_deserializer(denoted as u64)),
+        _ => via!(IntoDeserializer::<E>::into_deserializer(denoted as u128)),
+    });
+    let _: Option<I8Deserializer<E>> = None;
+    match r.map_err(|p| format!("{}::deserialize({} {denoted}): {p}", kind.name(), INT_WIDTHS[w]))? {
+        Err(_) => Ok(false),
+        Ok(v) => {
+            if !ad::in_range(&v) {
+                return Err(format!("{}::deserialize({} {denoted}) = Ok({}), which is outside the documented range", kind.name(), INT_WIDTHS[w], v.raw));
+            }
+            if v.raw != denoted {
+                return Err(format!("{}::deserialize({} {denoted}) = Ok({}): a wrapped / truncated image of the integer, expected an error (or the value {denoted} itself)", kind.name(), INT_WIDTHS[w], v.raw));
+            }
+            Ok(true)
+        }
+    }
+}
+
 pub fn check_decode_json(kind: Kind, payload: &str) -> Result<bool, String> {
     let r = guarded(|| from_json(kind, payload)).map_err(|p| format!("serde_json::from_str::<{}>({payload:?}): {p}", kind.name()))?;
     match r {
@@ -296,6 +359,7 @@ pub fn eval(case: &Case) -> Verdict {
     let r = match case.kind.as_str() {
         "roundtrip" => check_roundtrip(kind, case.i[1]),
         "decode_bin" => check_decode_bin(kind, case.i[1]).map(|_| ()),
+        "decode_int" => check_decode_int(kind, case.i[1], case.i[2] as usize).map(|_| ()),
         "decode_json" => check_decode_json(kind, &case.s[0]).map(|_| ()),
         k => Err(format!("unknown case kind {k}")),
     };
@@ -450,6 +514,54 @@ pub fn run(ctx: &Ctx) -> (Stats, Report) {
     }
     st.section("binary_payloads", &mut mark);
 
+    // integers delivered in every width by serde's own value deserializers
+    for kind in KINDS {
+        let (lo, hi) = strat::limits(kind);
+        let mut payloads: Vec<i128> = vec![];
+        for base in [0i128, lo, hi, 19_000, -19_000, 14, US_PER_DAY, ts_max(), ts_min()] {
+            // the value itself and its images shifted by multiples of 2^8 .. 2^64 (what a
+            // truncating cast would fold back onto it)
+            for k in [8u32, 16, 31, 32, 33, 63, 64, 65] {
+                for m in [-2i128, -1, 1, 2] {
+                    payloads.push(base + m * (1i128 << k));
+                }
+            }
+            for d in -2i128..=2 {
+                payloads.push(base + d);
+            }
+        }
+        for x in [i64::MIN as i128, i64::MAX as i128, u64::MAX as i128, u64::MAX as i128 - 5, i32::MIN as i128, i32::MAX as i128, u32::MAX as i128, i128::MAX, i128::MIN, u32::MAX as i128 + 1, u64::MAX as i128 + 1] {
+            payloads.push(x);
+        }
+        let mut sm = SplitMix(seed ^ 0x1d ^ kind.index() as u64);
+        for k in 0..(if ctx.thorough { 2_000_000 } else { 60_000 }) {
+            payloads.push(match k % 4 {
+                0 => sm.next() as i64 as i128,
+                1 => sm.range_i128(lo, hi) + ((sm.below(9) as i128 - 4) << [8, 16, 32, 64][sm.below(4) as usize]),
+                2 => (sm.next() as i128) << sm.below(64),
+                _ => sm.range_i128(lo, hi),
+            });
+        }
+        let pref = &payloads;
+        let s = par_sweep(payloads.len() as u64 * INT_WIDTHS.len() as u64, 4096, |range, st| {
+            for k in range {
+                let (x, w) = (pref[k as usize / INT_WIDTHS.len()], k as usize % INT_WIDTHS.len());
+                st.evaluations += 1;
+                st.fps.push(hash_ints(kind.index() as u64 + 300, &[x, w as i128]));
+                match check_decode_int(kind, x, w) {
+                    Ok(true) => st.class("integer-payload-accepted"),
+                    Ok(false) => st.class("integer-payload-rejected"),
+                    Err(m) => {
+                        st.fail(k, Case::new(P, "decode_int", vec![kind.index() as i128, x, w as i128], vec![]), m);
+                        return;
+                    }
+                }
+            }
+        });
+        st.merge(s);
+    }
+    st.section("integer_payloads_every_width", &mut mark);
+
     // decoding perturbed / malformed JSON
     for kind in KINDS {
         let vals = pools::pool(kind, seed, 2000);
@@ -539,7 +651,7 @@ pub fn run(ctx: &Ctx) -> (Stats, Report) {
     st.section("concurrent_histories", &mut mark);
 
     let rep = Report {
-        rule: "Round trips through serde_json and bincode: all dates, every second of the day x {0,1,999999} us, boundary+seeded pools of all six types; the JSON text must equal the reference rendering of the fixed layout in quotes and the binary form the little-endian raw count. Decoding: raw integers at every range limit +-0..3 and +-1e6, the i32/i64 extremes and seeded integers (uniform over the integer width, around the range, inside the range) as bincode payloads of every type (non-whole-second counts for the Oracle date included); JSON payloads made by 1..3 random edits of valid strings plus non-string JSON. Concurrent histories: 16 threads, each walking its own three days (staying on a day 3 times out of 4) and round-tripping every value twice, so that any state the library shares between calls is hit from several threads (schedule-dependent: sound on any tree, sensitivity probabilistic). Oracle: round trip returns the same value; any other payload yields Err or a value satisfying the range predicate (whole seconds for the Oracle date). Non-trivial = every round-tripped value; out-of-range binary payloads; every perturbed JSON payload (distinct by content).".into(),
+        rule: "Round trips through serde_json and bincode: all dates, every second of the day x {0,1,999999} us, boundary+seeded pools of all six types; the JSON text must equal the reference rendering of the fixed layout in quotes and the binary form the little-endian raw count. Decoding: raw integers at every range limit +-0..3 and +-1e6, the i32/i64 extremes and seeded integers (uniform over the integer width, around the range, inside the range) as bincode payloads of every type (non-whole-second counts for the Oracle date included); JSON payloads made by 1..3 random edits of valid strings plus non-string JSON; integers handed to Deserialize in every width (i8..i128, u8..u128) by serde's de::value deserializers - range limits, small values and their images shifted by multiples of 2^8..2^65, extremes, seeded values: Err, or exactly the value whose raw count is that integer (never a truncated image). Concurrent histories: 16 threads, each walking its own three days (staying on a day 3 times out of 4) and round-tripping every value twice, so that any state the library shares between calls is hit from several threads (schedule-dependent: sound on any tree, sensitivity probabilistic). Oracle: round trip returns the same value; any other payload yields Err or a value satisfying the range predicate (whole seconds for the Oracle date). Non-trivial = every round-tripped value; out-of-range binary payloads; every perturbed JSON payload (distinct by content).".into(),
         assumptions: vec!["bincode 1.3 default configuration (little-endian fixed-width integers) and serde_json as the two data formats".into()],
         exhaustive: false,
         extra: Default::default(),
